@@ -189,6 +189,10 @@ def _nested_clauses(c, H, it, origin, P):
     """Invocations made through next_state_now: tm measured from the same origin at the nested clock
     read, freshly entered (initial_call, state_tm == 0)."""
     for a, b in zip(it.calls, it.calls[1:]):
+        if a.action in ("done", "done_next"):
+            # the machine was stopped inside this iteration: a later next_state_now() of the still-running outer
+            # state function starts it again, with a new origin (done();next_state_now() in one invocation is outside the claim)
+            break
         if b.depth > 0 and b.kind != "default":
             c.reach("nested-call")
             c.prove(f"{P}.tm-origin", s_eq(b.tm, b.now - origin), info=dict(iteration=it.idx, state=b.name, nested=True))
@@ -401,7 +405,7 @@ def clauses_c13(c, H):
                 c.prove("C13.enable initial_call", it.calls[0].ic, info=dict(iteration=i))
         if running_after(it):
             c.reach("asm-running")
-            n_nsn = sum(1 for x in it.calls if x.action == "nsn")
+            n_nsn = sum(1 if x.action == "nsn" else 2 if x.action == "nsn2" else 0 for x in it.calls)
             c.prove("C13.run one-state-per-iteration", len(it.calls) == 1 + n_nsn, info=dict(iteration=i, calls=[x.name for x in it.calls]))
             c.prove("C13.run is_executing", is_exec, info=dict(iteration=i))
             phase = "running"
